@@ -688,6 +688,12 @@ func (r *RTPReceiver) maybeStartRepairStreamReader(track *trackStreams) { //noli
 
 				return
 			}
+			if i < 12 {
+				// shorter than the fixed RTP header (e.g. an empty read), ignore
+				r.rtxPool.Put(b) // nolint:staticcheck
+
+				continue
+			}
 
 			// RTX packets have a different payload format. Move the OSN in the payload to the RTP header and rewrite the
 			// payload type and SSRC, so that we can return RTX packets to the caller 'transparently' i.e. in the same format
